@@ -220,11 +220,11 @@ void TensorAppendColumn(tensor *t, size_t order, dvector* column)
 void TensorAppendRow(tensor *t, size_t order, dvector* row)
 {
   if(order < t->order){
-    if(row->size != t->m[order]->row){
+    if(row->size == t->m[order]->col){
       MatrixAppendRow(t->m[order], row);
     }
     else{
-      fprintf(stderr, "Error! The column number differ %zu != %zu\n", row->size, t->m[order]->row);
+      fprintf(stderr, "Error! The column number differ %zu != %zu\n", row->size, t->m[order]->col);
       fflush(stderr);
       abort();
     }
